@@ -20,11 +20,11 @@ PROPERTY_UNITS = {
     "C10": ["V1_runtime", "R_refuter"],
     "C11": ["K1_numbers", "V1_runtime", "R_refuter"],
     "C12": ["K1_numbers", "V1_runtime", "R_refuter"],
-    "C15": ["V2_basic"],
-    "C16": ["V1_runtime", "V2_basic", "R_refuter"],
+    "C15": ["V2_basic", "V3_simple"],
+    "C16": ["V1_runtime", "V2_basic", "V3_simple", "R_refuter"],
     "C17": ["V1_runtime"],
 }
-VERUS_UNITS = {"V1_runtime", "V2_basic"}
+VERUS_UNITS = {"V1_runtime", "V2_basic", "V3_simple"}
 KANI_UNITS = {"K1_numbers", "R_refuter"}
 
 
